@@ -11,6 +11,7 @@ From Coq Require Import List NArith String Bool.
 From Gen Require Import Tables.
 From Model Require Import Base Names Decode.
 From Proofs Require Import DecodeFacts.
+From Proofs Require Import FuelFacts.
 Import ListNotations.
 Open Scope N_scope.
 
@@ -69,3 +70,17 @@ Proof.
   repeat split; try (repeat constructor; vm_compute; reflexivity); try (cbn; vm_compute; auto).
   all: try (unfold bytes_ok; repeat constructor; reflexivity).
 Qed.
+
+(* the retry loops of the model are written with explicit fuel; the out-of-fuel value cannot be observed: the
+   helper model is total in strict, ignore and replace mode, with or without test-only / chunk mode, on UTF-8
+   and on every single-byte table (every decoder error consumes at least one byte; from the initial state no
+   byte leads to a reject-with-backup state -- a finite fact of the generated automaton) *)
+Theorem C17_utf8_helper_never_out_of_fuel :
+  forall input t only_test is_chunk mb, helper utf8_decoder [239; 191; 189] input t only_test is_chunk mb <> HFuel.
+Proof. exact utf8_helper_total. Qed.
+Print Assumptions C17_utf8_helper_never_out_of_fuel.
+
+Theorem C17_single_byte_helper_never_out_of_fuel :
+  forall table input t only_test is_chunk mb, helper (sb_decoder table) [65533] input t only_test is_chunk mb <> HFuel.
+Proof. exact sb_helper_total. Qed.
+Print Assumptions C17_single_byte_helper_never_out_of_fuel.
